@@ -13,8 +13,9 @@ C26 checker.
   tagfilters `_` | `<hexkey>=<pattern>;…`
   output     `err` | `_` | `<hexname>,…` (the names of the members returned, in order)
 
-The MODEL output is the translation of `filterMembers` run on the engine given by the `wc`/`wm`
-columns (Go's engine as oracle for the template-wrapped pattern).  The MONITOR judges the
+The MODEL output is the translation of `filterMembers` / `compileAnchored` run on the engine given
+by the table (Go's engine as oracle: `c` for the validation of the pattern alone, `wc`/`wm` for the
+template-wrapped pattern).  The MONITOR judges the
 implementation's output against the property using only the `c`/`fm` columns (what the pattern
 means on its own): an invalid pattern must give `err`, otherwise exactly the members whose
 name / status / requested tag values are fully matched.
@@ -78,13 +79,14 @@ def parseTagFilters (s : String) : Option (List (String × Pat)) :=
 def showNames (ms : List Member) : String :=
   if ms.isEmpty then "_" else ",".intercalate (ms.map fun m => hexOfString m.name)
 
-/-- the engine described by the `wc` / `wm` columns -/
+/-- the engine described by the table: `c` (valid alone), `wc` (wrapped compiles), `wm` (wrapped matches) -/
 def engineOf (ms : List Member) (tags : List (String × Pat)) (status name : Pat) : Engine :=
-  let comp : List (String × Bool) := (status.pat, status.wc) :: (name.pat, name.wc) :: tags.map fun tp => (tp.2.pat, tp.2.wc)
+  let pats := status :: name :: tags.map (·.2)
   let rows (p : Pat) (vals : List String) : List ((String × String) × Bool) := (vals.zip p.wm).map fun vb => ((p.pat, vb.1), vb.2)
   let tbl := rows status (ms.map (·.status)) ++ rows name (ms.map (·.name)) ++
     tags.flatMap fun tp => rows tp.2 (ms.map fun m => tagValue m tp.1)
-  { compiles := fun p => (alookup comp p).getD false
+  { validAlone := fun p => (alookup (pats.map fun x => (x.pat, x.c)) p).getD false
+    compilesWrapped := fun p => (alookup (pats.map fun x => (x.pat, x.wc)) p).getD false
     matchStr := fun p v => (alookup tbl (p, v)).getD false }
 
 /-- the property, from the `c` / `fm` columns only: `none` = an error is required -/
